@@ -661,6 +661,17 @@ def run(project: Project, rep, tier: str):
     if st == "unmodelled" and not bisect_decided:
         check_search(project, rep, max_n)   # report why the semantic rule could not follow it either
     check_order(rep, run)
+    # BN-SHORT: a short cut taken before the search must compare the diagrams as multisets of points
+    n_sc = 0
+    from .distances import colsort_decides
+    for ev in colsort_decides(run):
+        n_sc += 1
+        rep.refuted("BN-SHORT", run.fi, ev["node"], "a diagram's birth and death columns are sorted independently (np.sort(..., axis=0)) and the result decides the "
+                    "distance: two different diagrams with the same births and the same deaths, paired differently, are treated as "
+                    "equal (0 returned for [[0,2],[1,3]] vs [[0,3],[1,2]], whose distance is 1)",
+                    construct=f"{BN}: column-wise sort")
+    if not n_sc:
+        rep.discharged("BN-SHORT", run.fi, run.fi.node, "no short cut compares the diagrams column by column", nontrivial=False)
     check_empty(rep, project, BN)
     # BN-DTYPE: representation independence of the distance's own input handling — no float store into an array typed by a diagram,
     # no cast of one diagram to the dtype of the other (rules/dtype_rule.py) — over the entry point and the helpers it calls
